@@ -97,6 +97,7 @@ def gen_cfg(**consts: Any) -> str:
     body = "CONSTANTS\n" + "\n".join(
         f"  {k} = {str(v).upper() if isinstance(v, bool) else v}" for k, v in d.items())
     body += "\nINIT Init\nNEXT Next\nINVARIANT Emit\nINVARIANT ModelOK\nCHECK_DEADLOCK FALSE\n"
+    os.makedirs(scratch(), exist_ok=True)
     p = os.path.join(scratch(), f"DistComm_{zlib.crc32(body.encode()):08x}.cfg")
     with open(p, "w") as f:
         f.write(body)
